@@ -71,4 +71,30 @@ def clevelRequired (fileLength : Nat) (dims : List Nat) : Nat :=
 def blockedImageBytes (nbpr nbpc nppbh nppbv bands bytesPerSample : Nat) : Nat :=
   nbpr * nbpc * nppbh * nppbv * bands * bytesPerSample
 
+/-! ### block-masked images (IC = NM): the mask table in front of the pixel data, MIL-STD-2500C table A-3(A)
+
+  `present` lists, per block in block order, whether the block is recorded.  The writer (`NITFWriter._handle_no_compression`,
+  `ImageSubheaderManager.item_size`) takes the offsets from the mask subheader it is given; sarpy's own consumers and the
+  standard want recorded blocks packed consecutively, absent blocks marked 0xFFFFFFFF. -/
+
+def absentMark : Nat := 4294967295
+
+/-- length of a mask table with a block mask only (BMRLNTH = 4, TMRLNTH = 0, TPXCDLNTH = 0): 10 fixed bytes + 4 per block -/
+def maskTableLen (nblocks : Nat) : Nat := 10 + 4 * nblocks
+
+/-- block mask record offsets (relative to the first pixel byte): recorded blocks packed in block order from `cur` -/
+def maskOffsets (blockBytes : Nat) : Nat → List Bool → List Nat
+  | _, [] => []
+  | cur, true :: rest => cur :: maskOffsets blockBytes (cur + blockBytes) rest
+  | cur, false :: rest => absentMark :: maskOffsets blockBytes cur rest
+
+def countPresent : List Bool → Nat
+  | [] => 0
+  | true :: rest => countPresent rest + 1
+  | false :: rest => countPresent rest
+
+/-- the image data length (LI) of a block-masked segment: mask table + recorded blocks -/
+def maskedImageBytes (blockBytes : Nat) (present : List Bool) : Nat :=
+  maskTableLen present.length + countPresent present * blockBytes
+
 end Sarpy.Spec.Layout
